@@ -1,4 +1,4 @@
 #!/bin/bash
 # tools/leancheck.sh : re-check the compiled property modules with the toolchain's independent checker
 cd "$(dirname "$0")/../lean" && lake build >/dev/null 2>&1 && \
-lake env leanchecker $(for i in $(seq -w 1 20); do echo OpcuaModel.Props.C$i; done)
+lake env leanchecker $(for i in $(seq -w 1 20); do echo OpcuaModel.Props.C$i; done) OpcuaModel.Gen.PyPrims OpcuaModel.Gen.NodeIdGen OpcuaModel.Gen.NodeIdTie
